@@ -384,7 +384,64 @@ func classifyRace(race string) string {
 	return ""
 }
 
+// runPlain is the conformance pass on the PLAIN build (real goroutines, real channels, real time): the
+// same scenarios are evaluated with a host function slow() that really sleeps 300us, so that the
+// library's wall-clock measurement switches to parallel execution, and with an identity slow() that
+// keeps it sequential; the two observations must agree. This ties the outcomes explored under the
+// controlled scheduler to what the unmodified code does, and would expose a rewriting or shim error
+// that changes results.
+func runPlain(ctx *bex.Ctx) {
+	log.SetOutput(io.Discard)
+	mk := func(sleep bool) *value.FunctionGenerator {
+		g := value.New()
+		g.AddStaticFunction("slow", funcGen.Function[value.Value]{
+			Func: func(st funcGen.Stack[value.Value], cs []value.Value) (value.Value, error) {
+				if sleep {
+					time.Sleep(300 * time.Microsecond)
+				}
+				return st.Get(0), nil
+			},
+			Args: 1, IsPure: false,
+		}.SetDescription("x", "identity; really sleeps 300us in the parallel variant"))
+		return g
+	}
+	gSeq, gPar := mk(false), mk(true)
+	ctx.Space("plain-build-conformance")
+	var idx int64
+	enumerate(true, func(sc scenario) {
+		idx++
+		if !ctx.Mine(idx) || ctx.Expired() {
+			return
+		}
+		if strings.Contains(sc.Src, "l->5") {
+			return // the pinned 5 s timeout
+		}
+		fs, _, err1 := gSeq.Generate(sc.Src, "n")
+		fp, _, err2 := gPar.Generate(sc.Src, "n")
+		if err1 != nil || err2 != nil {
+			return
+		}
+		want := observe(gSeq, fs, sc.N)
+		for rep := 0; rep < 2; rep++ {
+			ctx.Eval()
+			got := observe(gPar, fp, sc.N)
+			ctx.Add("traces_validated_against_impl", 1)
+			ctx.Add("plain_build_runs", 1)
+			if got != want {
+				ctx.Violate("plain build: result with parallel execution differs from the sequential result", map[string]any{"family": sc.Family, "src": sc.Src, "n": sc.N, "plain": true}, want, got, "")
+			}
+		}
+		ctx.Nontrivial("plain|" + sc.Src + fmt.Sprint(sc.N))
+		ctx.Outcome("plain:" + strings.SplitN(sc.Family, ":", 2)[0])
+	})
+	ctx.SpaceDone("every quick-tier scenario evaluated twice on the plain build with a really sleeping slow() (parallel) against the identity slow() (sequential)")
+}
+
 func run(ctx *bex.Ctx) {
+	if !ctx.Coop {
+		runPlain(ctx)
+		return
+	}
 	log.SetOutput(io.Discard)
 	r := &runner{g: newGen()}
 	ctx.Space("pipelines")
@@ -536,6 +593,7 @@ func main() {
 			"virtual time: only the host function slow() costs time (300us); time.After fires only when nothing else is enabled; no closure call takes 5s of real time",
 			"runtime.NumCPU is the harness' worker count W; W=1 (the library's own sequential fallback) defines the sequential reference for map/accept; merge and multiUse references are computed from separately forced operands"},
 		QuickBudget: 70e9, ThoroughBudget: 28 * 60e9,
+		Workers: 4, CoopWorkers: 12,
 		Run:    run,
 		Replay: replay,
 	})
